@@ -163,13 +163,14 @@ class TcpCase:
         return "%s\t%s\t%s\t%s\t%d\t%s\n" % (self.id, hexs(self.stream), sz or "one", self.mode, self.pause, hexs(self.probe))
 
 
-def run_tcp(server, d, cases, tag="tcp", workers=6, timeout=900):
+def run_tcp(server, d, cases, tag="tcp", workers=6, timeout=1500, selfclose_ms=20000):
     """Returns {id: dict(status, rx, witness, probe_rx)}, error-text-or-None."""
     inp, out = d / (tag + ".cases"), d / (tag + ".out")
     inp.write_text("".join(c.line() for c in cases))
     if out.exists():
         out.unlink()
-    rc, log = lib.sh([str(lib.BUILD / H), "tcp", server.addr(), str(inp), str(out), str(workers)], cwd=d, timeout=timeout)
+    rc, log = lib.sh([str(lib.BUILD / H), "tcp", server.addr(), str(inp), str(out), str(workers), str(selfclose_ms)],
+                     cwd=d, timeout=timeout)
     if rc != 0 or not out.exists():
         return {}, "harness_resp tcp rc=%s %s" % (rc, log[-800:])
     res = {}
